@@ -79,6 +79,15 @@ Definition run_pel (cmd : text) (args : list bytes) : option text :=
     | Some t => Some (render (JStr (pretty_print (nat_arg (arg 0 args)) t)))
     | None => Some (L "null")
     end
+  else if is_cmd cmd (L "decode_fx") then
+    (* args: flags, data, then fixture quadruples: kind, module name, behaviour, text *)
+    let fix quads (l : list bytes) : list (N * text * N * text) :=
+      match l with
+      | k :: n :: b :: p :: t =>
+          (be_val k 0, match utf8_decode n with Some x => x | None => [] end, be_val b 0, match utf8_decode p with Some x => x | None => [] end) :: quads t
+      | _ => []
+      end in
+    Some (render (render_outcome (decode (env_fx (fixtures_of (quads (skipn 2 args)))) (cfg_of (arg 0 args)) (fun _ => true) (arg 1 args))))
   else if is_cmd cmd (L "decode") then
     Some (render (render_outcome (decode env0 (cfg_of (arg 0 args)) (fun _ => true) (arg 1 args))))
   else None.
